@@ -16,7 +16,9 @@ operand the model does not fix).  The spec's predictions (fired, raised, both va
 difference is only a SPEC-MISMATCH warning.  A property failure is attributed to a named deviation only when the code
 did exactly what the implementation model predicts on that tuple; anything else is a VIOLATION without finding id.
 
-Not covered (float kernels, would need tolerance-based replay): fuse_hardswish_rules, remove_optional_bias_from_qlinear_conv_rule,
+fuse_hardswish_rules (family "hardswish", session 6) replaces a chain by a float kernel: its before/after relation is equality up to
+the kernel's round-off (ROUNDOFF), far below the eps class of constants (5e-5).
+Not covered (float kernels, would need tolerance-based replay): remove_optional_bias_from_qlinear_conv_rule,
 onnxscript.rewriter.rules.fusion.* (layer norm, rms norm, rotary embedding, gqa).
 
 VERIF_C05_MAX=<n> (optional, experiments): replay a seeded sample of n tuples.
@@ -38,14 +40,19 @@ NONE = 99
 
 FAMILIES = ["relus_clips", "min_max", "no_op", "dropout", "cast_cos", "scatter_static", "scatter_dynamic", "expand_binop", "materialize",
             "collapse_slices", "casts", "no_op_expand", "reshape_reshape", "flatten", "slice_split", "transposes", "unsqueeze2",
-            "squeeze_reshape", "matmul_reshape", "matmul_add_gemm", "gemm_matmul_add", "optional_bias", "pad_conv", "conv_affine", "batchnorm"]
+            "squeeze_reshape", "matmul_reshape", "matmul_add_gemm", "gemm_matmul_add", "optional_bias", "pad_conv", "conv_affine", "batchnorm",
+            "hardswish"]
 MY_DEVS = ["relu_clip_negmax", "clip_clip_disjoint", "relu_clip_no_dtype_raise", "scatter_symbolic_raise",
            "scatter_static_ignores_reduction", "cast_cos_overflow", "const_tolerance", "overridable_read_as_const",
            "minmax_clip_rank", "clip_inputs_pre_opset11", "expand_rank_extension", "expand_binop_drops_attrs",
            "materialize_allowzero", "slice_split_odd", "split_num_outputs_pre_opset18", "flatten_zero_dim",
            "reshape_matmul_ignores_inner_shapes", "matmul_add_gemm_bias_shape", "gemm_matmul_add_ignores_attrs", "gemm_matmul_add_bias_shape",
-           "pad_convinteger_zero_point", "autopad_ignores_dilation", "conv_affine_scalar_rank", "bn_gemm_beta"]
-SCALE = {"no_op": 1000, "cast_cos": 10}
+           "pad_convinteger_zero_point", "autopad_ignores_dilation", "conv_affine_scalar_rank", "bn_gemm_beta",
+           "hardswish_int_dtype", "hardswish_pre_opset14", "hardswish_const_rank"]
+SCALE = {"no_op": 1000, "cast_cos": 10, "hardswish": 6000}
+# families whose replacement is a float kernel that is not bit-identical to the matched chain: "equal values" is read up to round-off
+ROUNDOFF = {"hardswish": {"f": 2e-6, "d": 1e-12}}
+FULL_CHECK = {"hardswish"}
 
 NP = {"f32": np.float32, "f16": np.float16, "f64": np.float64, "i64": np.int64, "i32": np.int32, "u8": np.uint8, "bool": np.bool_}
 
@@ -782,13 +789,61 @@ def build_matmul_reshape(p, osh, aux):
     return h, m.rules
 
 
+HS_CLS = {"exact": 1.0, "eps": 1.0 + 5e-5, "near": 1.0 + 2e-4}
+HS_ALPHA = {"sixth": 1.0 / 6.0, "sixth_eps": (1.0 / 6.0) * (1.0 + 8e-6), "fifth": 0.2}
+HS_BETA = {"half": 0.5, "p6": 0.6}
+
+
+def build_hardswish(p, osh, aux):
+    """Add/Clip/(Mul)/Div chains and HardSigmoid*x hosts for the three rules of _fuse_hardswish.py (the rule set as exported,
+    commute=True).  Only the bias operand takes the operand kind; y = x + 1 is the other graph input of a Mul near-miss."""
+    from onnxscript.rewriter.rules.common import _fuse_hardswish as m
+
+    h = Host(p["opset"])
+    dt = p["dt"]
+    h.inp("x", dt, xt(dt, p["xs"]))
+    other = "x"
+    if not p["samex"]:
+        other = h.inp("y", dt, xt(dt, p["xs"]) + 1)
+
+    def cv(c):
+        return c[0] * HS_CLS[c[1]]
+
+    if p["rule"] == "fromhs":
+        attrs = {}
+        if p["alpha"] != "none":
+            attrs["alpha"] = HS_ALPHA[p["alpha"]]
+        if p["beta"] != "none":
+            attrs["beta"] = HS_BETA[p["beta"]]
+        h.node("HardSigmoid", ["x"], ["c"], **attrs)
+        h.node("Mul", ["c", other] if p["mord"] == "cx" else [other, "c"], ["y_out"])
+    else:
+        b = h.operand("b", p["ckind"], dt, np.full(p["bs"], cv(p["b"])), alt=np.full(p["bs"], cv(p["b"]) + 1))
+        h.operand("lo", "init", dt, np.asarray(cv(p["lo"])))
+        h.operand("hi", "init", dt, np.asarray(cv(p["hi"])))
+        h.operand("d", "init", dt, np.full(p["dvs"], cv(p["d"])))
+        h.node("Add", ["x", b] if p["aord"] == "xb" else [b, "x"], ["a"])
+        h.node("Clip", ["a", "lo", "hi"], ["c"])
+        if p["rule"] == "hswish":
+            h.node("Mul", ["c", other] if p["mord"] == "cx" else [other, "c"], ["m"])
+            h.node("Div", ["m", "d"], ["y_out"])
+        else:
+            h.node("Div", ["c", "d"], ["y_out"])
+    h.out("y_out", dt, [None] * len(osh))
+    if p["extra"] in ("add", "clip"):
+        h.node("Neg", ["a" if p["extra"] == "add" else "c"], ["y2"])
+        h.out("y2", dt, [None] * max(len(p["xs"]), len(p["bs"])))
+    return h, m.fuse_hardswish_rules()
+
+
 BUILDERS = {"relus_clips": build_relus_clips, "min_max": build_min_max, "no_op": build_no_op, "dropout": build_dropout,
             "cast_cos": build_cast_cos, "scatter_static": build_scatter_static, "scatter_dynamic": build_scatter_dynamic, "expand_binop": build_expand_binop,
             "materialize": build_materialize, "collapse_slices": build_collapse_slices, "casts": build_casts,
             "no_op_expand": build_no_op_expand, "reshape_reshape": build_reshape_reshape, "flatten": build_flatten,
             "slice_split": build_slice_split, "transposes": build_transposes, "unsqueeze2": build_unsqueeze2,
             "squeeze_reshape": build_squeeze_reshape, "matmul_reshape": build_matmul_reshape, "matmul_add_gemm": build_matmul_add_gemm,
-            "gemm_matmul_add": build_gemm_matmul_add, "optional_bias": build_optional_bias, "pad_conv": build_pad_conv, "conv_affine": build_conv_affine, "batchnorm": build_batchnorm}
+            "gemm_matmul_add": build_gemm_matmul_add, "optional_bias": build_optional_bias, "pad_conv": build_pad_conv, "conv_affine": build_conv_affine, "batchnorm": build_batchnorm,
+            "hardswish": build_hardswish}
 
 
 # ------------------------------------------------------------------ unpinned attributes
@@ -844,6 +899,7 @@ ATTR_TABLE = {
     "conv_affine": {"Mul": {}, "Add": {},
                     "Conv": {"auto_pad": "swept", "dilations": "swept", "group": "copied:all attributes are passed on; the hosts have group 1",
                              "kernel_shape": "copied:all attributes are passed on", "pads": "pinned", "strides": "swept"}},
+    "hardswish": {"Add": {}, "Clip": {}, "Mul": {}, "Div": {}, "HardSigmoid": {"alpha": "read", "beta": "read"}},
     "batchnorm": {"BatchNormalization": {"epsilon": "read", "momentum": "unswept:no effect in inference mode",
                                          "training_mode": "unswept:training mode needs three outputs, which the single-output pattern does "
                                                           "not match, and ORT refuses every other form"},
@@ -913,14 +969,19 @@ def tensors(t):
     return list(t["data"]) if t["dt"] == "PAIR" else [t]
 
 
-def same_out(a, b):
-    """the property's relation between two ORT results: same element type, same shape, equal values"""
+def same_out(a, b, roundoff=None):
+    """the property's relation between two ORT results: same element type, same shape, equal values (up to the
+    round-off of the family's float kernel where `roundoff` is given)"""
     if len(a) != len(b):
         return False
     for u, v in zip(a, b):
         if u.dtype != v.dtype or u.shape != v.shape:
             return False
-        if not np.array_equal(u, v, equal_nan=(u.dtype.kind == "f")):
+        if roundoff and u.dtype.kind == "f":
+            r = roundoff.get(u.dtype.char, 2e-6)
+            if not np.allclose(u, v, rtol=r, atol=r, equal_nan=True):
+                return False
+        elif not np.array_equal(u, v, equal_nan=(u.dtype.kind == "f")):
             return False
     return True
 
@@ -992,7 +1053,8 @@ def observe(fam, p, lhs, aux):
         ob["after_err"] = f"serialize: {type(e).__name__}: {str(e)[:200]}"
         return ob
     try:
-        onnx.checker.check_model(after_model)
+        # families whose replacement operator accepts fewer element types than the matched chain are checked WITH type inference
+        onnx.checker.check_model(after_model, full_check=fam in FULL_CHECK)
     except Exception as e:  # noqa: BLE001
         ob["checker"] = f"{type(e).__name__}: {str(e)[:300]}"
     if befores is None:
@@ -1001,7 +1063,7 @@ def observe(fam, p, lhs, aux):
         sess2 = core.ort_session(after_model)
         afters = [sess2.run(None, f) for f in feeds]
         ob["after"] = [enc(x, SCALE.get(fam, 1)) for x in afters[0]]
-        ob["same"] = [same_out(a, b) for a, b in zip(befores, afters)]
+        ob["same"] = [same_out(a, b, ROUNDOFF.get(fam)) for a, b in zip(befores, afters)]
         bad = [i for i, s in enumerate(ob["same"]) if not s]
         if bad:
             i = bad[0]
